@@ -20,6 +20,7 @@ def unmodelled(obligation_name):
     if "@" not in obligation_name:
         return None
     path = obligation_name.split("@", 1)[1]
+    path = re.sub(r"\[[^\]]*\]", "", path)          # subscripts (indices, dictionary keys) are not attributes
     for seg in re.findall(r"\.([A-Za-z_][A-Za-z0-9_]*)", path):
         if seg not in baseline():
             return seg
